@@ -292,7 +292,7 @@ func init() {
 	}
 
 	registry["C04"] = &Check{
-		Rule: "virtual time (synctest): 2-4 actors, 1-8 Asks from the system or from actors, issued at 0-3 ms, timeouts 1-5 ms, the target replying after a delay drawn around the timeout (0, t-1, t, t+1, any), never, twice or with an error value; 1-4 Result/Wait callers per future; Future.PipeTo with 1-3 forwarders at a drawn instant (before, at, after completion); ActorContext.PipeTo; Close(err) at a drawn instant; askers / targets / forwarders killed at drawn instants. A reference model computes the earliest completing cause per Ask (ties accept either); oracle: every waiter returned, at exactly the model's virtual instant, with the model's value (own reply id, timeout not before t, actor-dead), all waiters agree, every live forwarder got exactly one matching PipeResult, and the white-box future tables are empty afterwards. Real clock (-race, real threads): 4-16 goroutines x 200 Asks with timeouts 1 ns - 50 ms, PipeTo racing the completion from another goroutine, askers killed while their futures complete; oracle: own reply or timeout, one PipeResult per piped future, tables empty, no race report, process alive. Non-trivial = two completion causes within 1 ms of each other (virtual) / every real-clock round. Distinct = hash of the case.",
+		Rule: "virtual time (synctest): 2-4 actors, 1-8 Asks from the system or from actors, issued at 0-3 ms, timeouts 1-5 ms, the target replying after a delay drawn around the timeout (0, t-1, t, t+1, any), never, twice or with an error value; 1-4 Result/Wait callers per future; Future.PipeTo with 1-3 forwarders at a drawn instant (before, at, after completion); ActorContext.PipeTo; Close(err) at a drawn instant; askers / targets / forwarders terminated at drawn instants (immediate or poison kill; a kill that abandons a restart waiting for a slow child; a kill that releases a zombie; a supervisor's Stop decision); in a third of the cases the system and some actors have their own default Ask timeout (1-6 ms) and Asks are issued without a timeout argument; a second Future.PipeTo call with an overlapping forwarder set right after the first. A reference model computes the earliest completing cause per Ask (ties accept either); oracle: every waiter returned, at exactly the model's virtual instant, with the model's value (own reply id, timeout not before t, actor-dead), all waiters agree, every live forwarder got exactly one matching PipeResult, and the white-box future tables are empty afterwards. Real clock (-race, real threads): 4-16 goroutines x 200 Asks with timeouts 1 ns - 50 ms, PipeTo racing the completion from another goroutine, askers killed while their futures complete; oracle: own reply or timeout, one PipeResult per piped future, tables empty, no race report, process alive. Non-trivial = two completion causes within 1 ms of each other (virtual) / every real-clock round. Distinct = hash of the case.",
 		Assumptions: []string{
 			"timeouts are > 0 (non-positive values are documented as 'no timer')",
 			"the real-clock unit samples thread interleavings; the race detector only reports races that occur in an executed schedule",
